@@ -31,11 +31,12 @@ Init == /\ st = [c \in Clients |-> IF c = "A" THEN "new" ELSE "up"]
         /\ reading = [c \in Clients |-> TRUE] /\ pending = [c \in Clients |-> "none"]
         /\ closedSrv = FALSE /\ steps = 0 /\ hist = <<>>
 
-Free(s) == \A c \in Clients : s[c] = "up" => reading[c]
+FreeOf(s, rd) == \A c \in Clients : s[c] = "up" => rd[c]
+Free(s) == FreeOf(s, reading)
 \* gone is only predicted when the proviso holds before the step: a packet of a connection whose
 \* processor is parked on somebody's full ring is not even looked at
 Log(a, c, gone) == /\ steps' = steps + 1
-                   /\ hist' = Append(hist, [a |-> a, c |-> c, gone |-> (gone /\ Free(st)), free |-> Free(st'), cross |-> Cross, selfsub |-> SelfSub])
+                   /\ hist' = Append(hist, [a |-> a, c |-> c, gone |-> (gone /\ Free(st)), free |-> FreeOf(st', reading'), cross |-> Cross, selfsub |-> SelfSub])
 
 \* a burst of big QoS 0 publishes (more than the subscriber's ring holds)
 Burst(c) == /\ c \in {"P", "S"} /\ st[c] = "up" /\ (c = "S" => Cross) /\ ~closedSrv
@@ -68,7 +69,7 @@ Resume(c) == /\ c \in {"P", "S"} /\ st[c] = "up" /\ ~reading[c] /\ ~closedSrv
              /\ st' = IF pending[c] # "none" THEN [st EXCEPT ![c] = "gone"] ELSE st
              /\ UNCHANGED <<pending, closedSrv>>
              /\ steps' = steps + 1
-             /\ hist' = Append(hist, [a |-> "resume", c |-> c, gone |-> pending[c] # "none", free |-> Free(st'), cross |-> Cross, selfsub |-> SelfSub])
+             /\ hist' = Append(hist, [a |-> "resume", c |-> c, gone |-> pending[c] # "none", free |-> FreeOf(st', reading'), cross |-> Cross, selfsub |-> SelfSub])
 
 AttackKinds == {"pre-garbage", "pre-truncated-connect", "pre-cut-in-header", "pre-cut-in-body", "pre-huge-remlen",
                 "post-truncated-publish", "post-garbage", "post-huge-remlen", "post-cut-mid-packet", "post-bad-flags",
